@@ -2,7 +2,7 @@
 from ..registry import rule
 from ..core import origin_of_operand, AnchorMissing, comparisons, rel_str, mirror, feasible_reach
 from .common import *
-from .walrules import rule_seq_floor_on_open, rule_delete_tables_after_manifest
+from .walrules import rule_seq_floor_on_open, rule_delete_tables_after_manifest, from_highest_segment_on_disk
 from . import codec
 
 EXPLANATION = ("Structural necessary conditions of re-openability: the manifest decoder reads exactly what the encoder writes, "
@@ -144,7 +144,7 @@ def r4(cx):
     b = f.body("Wal::open_with_min_log_number")
     for c in sites(cx, b, "Wal::create_writer"):
         o = origin_of_operand(b, c.args[1], through_calls="all")
-        cx.check(o.from_call("std::cmp::max", "std::cmp::Ord::max") and o.from_call("Wal::calculate_active_log_number") and any(b.local_name(l) == "min_log_number" for l, _ in o.params),
+        cx.check(o.from_call("std::cmp::max", "std::cmp::Ord::max") and from_highest_segment_on_disk(f, o) and any(l == 2 or b.local_name(l) == "min_log_number" for l, _ in o.params),
                  "active segment = max(min_log_number, highest on disk)", "active-segment-floor", c.where())
     cb = f.body("CoreInner::new")
     for c in sites(cx, cb, "Wal::open_with_min_log_number"):
